@@ -85,7 +85,7 @@ static std::string argdump(bloc::Context& ctx, const std::vector<bloc::Expressio
   return o;
 }
 
-enum Method { Id = 0, Get, Set, Self, Other, Add, Out, Fail, Make, Mod };
+enum Method { Id = 0, Get, Set, Self, Other, Add, Out, Fail, Make, Mod, Hold };
 
 static PLUGIN_TYPE ctor_0_args[] = { { "I", 0 } };
 static PLUGIN_TYPE ctor_1_args[] = { { "O", 0 } };
@@ -117,6 +117,7 @@ static PLUGIN_METHOD methods[] =
   { Fail,  "fail",  { "I", 0 }, 0, nullptr,  "always throws" },
   { Make,  "make",  { "O", 0 }, 0, nullptr,  "returns a new object with value + 1" },
   { Mod,   "mod",   { "L", 0 }, 0, nullptr,  "the name of the module executing the method" },
+  { Hold,  "hold",  { "I", 0 }, 1, int_args, "evaluates its argument once, then looks at its own object again: returns value + argument" },
 };
 
 class VPlugin final : public PluginBase
@@ -202,6 +203,17 @@ public:
     /* reading the block of a destroyed object is caught by AddressSanitizer */
     if (o->magic != VMOD_MAGIC || strcmp(o->tag, VMOD_NAME) != 0)
       vlog(std::string("X ") + VMOD_NAME + " method-on-foreign-object " + methods[method_id].name);
+    if (method_id == Hold)
+    {
+      /* the argument is evaluated exactly once, while the method is running; the object must still be there afterwards */
+      long id0 = o->id;
+      bloc::Value& a0 = args[0]->value(ctx);
+      long n = a0.isNull() ? 0 : *a0.integer();
+      vlog(std::string("M ") + VMOD_NAME + " " + std::to_string(id0) + " hold-after-argument i" + std::to_string(n));
+      if (o->magic != VMOD_MAGIC)
+        vlog(std::string("X ") + VMOD_NAME + " object-gone-during-its-own-method hold");
+      return new bloc::Value(bloc::Integer(o->val + n));
+    }
     vlog(std::string("M ") + VMOD_NAME + " " + std::to_string(o->id) + " " + methods[method_id].name + " " + argdump(ctx, args));
     switch (method_id)
     {
